@@ -22,6 +22,7 @@ from __future__ import annotations
 
 import itertools
 import random
+import os
 import sys
 import time
 
@@ -263,16 +264,49 @@ def work(job):
     return stats, failures, samples
 
 
+_EXOTIC = {'eof', 'cut', 'const', 'dot', 'fail', 'void', 'la', 'nla', 'emptyclosure', 'skipto', 'skipgroup'}
+
+
+def _simplicity(f):
+    g = f['witness']['grammar']
+    exotic = sum(g.count(t) for t in ('$ ', '~', '`', '/./', '!', '()', '&', '{}', '->', '(?:')) - g.count('start $')
+    return (exotic, len(g), len(f['witness']['input'] or ''), f['witness']['input'] or '')
+
+
+def best_witnesses(failures, k=3):
+    """per class the k simplest witnesses (fewest exotic constructs, then shortest grammar / input)"""
+    by = {}
+    for f in failures:
+        by.setdefault(f['cls'], []).append(f)
+    out = []
+    for fs in by.values():
+        fs.sort(key=_simplicity)
+        out += fs[:1] if k == 1 else fs[:k]
+    return out
+
+
 def run_domain(name, descs, plan, *, function, domain, bound, exhaustive, budget=None, chunk=48, note='',
                prop=PROP, rule=RULE, suppress=None):
     descs = list(descs)
     jobs = [(c, plan, suppress) for c in chunked(descs, chunk)] if descs else []
     t0 = time.time()
     stats, failures, samples = new_stats(), [], []
-    for st, fs, sm in pmap(work, jobs):
-        merge_stats(stats, st)
-        failures += fs
-        samples += sm[:1]
+    done = 0
+    per = JOBS * 2 if budget is not None else max(1, len(jobs))
+    waves = [jobs[i:i + per] for i in range(0, len(jobs), per)]
+    for wave in waves:
+        if budget is not None and budget.left() <= 0:
+            break
+        for st, fs, sm in pmap(work, wave):
+            merge_stats(stats, st)
+            failures += fs
+            samples += sm[:1]
+        done += len(wave)
+    if done < len(jobs):
+        exhaustive = False
+        note = (note or f'bounded: {function} over {name}') + \
+            f' -- STOPPED by the time budget after {stats["grammars"]} of {len(descs)} grammars'
+    failures = best_witnesses(failures, 1)
     wall = time.time() - t0
     items = bitem(prop, name, function=function, domain=domain, bound=bound, cases=stats['cases'],
                   distinct_nontrivial=stats['nontrivial'], rule=rule, exhaustive=exhaustive, samples=samples,
@@ -478,7 +512,8 @@ def random_expr(rng, n, ctx, calls, leaves='core'):
         pool = G.exprs(n, ctx, calls, leaves)
         return rng.choice(pool) if pool else None
     for _ in range(50):
-        kind = rng.choice(['unary_e', 'unary_t', 'join', 'named', 'seq', 'choice'])
+        kind = rng.choice(['unary_e', 'unary_e', 'unary_t', 'join', 'named', 'named', 'seq', 'seq', 'seq', 'seq',
+                           'choice', 'choice'])
         if kind == 'unary_e':
             sub = random_expr(rng, n - 1, 'expre', calls, leaves)
             if sub:
@@ -520,7 +555,12 @@ def random_grammars(seed, count, lo=5, hi=7):
         for i, nm in enumerate(names):
             callable_ = tuple(names[i + 1:])  # calls only go forward: no left recursion
             n = rng.randint(lo, hi) if i == 0 else rng.randint(1, 4)
-            body = random_expr(rng, n, 'expre', callable_, 'core')
+            body = None
+            for _ in range(30):
+                body = random_expr(rng, n, 'expre', callable_, 'core')
+                if body is not None and (not callable_ or G._has_call(body, callable_[0])):
+                    break
+                body = None
             if body is None:
                 ok = False
                 break
@@ -543,7 +583,7 @@ FUNCTION = 'tatsu.peg.Grammar.parse (model built by specpeg.to_model) == specpeg
 
 
 def run(tier='quick', seed=0, info=None):
-    budget = Budget(105 if tier == 'quick' else 1100)
+    budget = Budget(float(os.environ.get('VERIF_BOUNDED_BUDGET_S', 0)) or (105 if tier == 'quick' else 1100))
     items = []
     summary = []
     in4, in3 = G.inputs('ab ', 4), G.inputs('ab ', 3)
@@ -587,19 +627,25 @@ def run(tier='quick', seed=0, info=None):
            bound='<= 3 nodes, input length <= 3', exhaustive=True)
     else:
         go('single-rule-le4', single_rule(4),
-           [('B', in4, (None,)), ('A', adjacent(in4), (None,)), ('C', spaced(in4), (None,))],
+           [('B', in4, (None,)), ('A', adjacent(in3), (None,)), ('C', spaced(in3), (None,))],
            domain='every grammar `start = e` with e of <= 4 nodes (full leaf alphabet, canonical up to renaming) '
-                  "x configurations B (all inputs over {a,b,' '} <= 4), A (inputs where two letters touch), C "
-                  '(inputs containing a blank)',
-           bound='<= 4 nodes, input length <= 4', exhaustive=True)
-        go('two-rule', two_rule(3, 2), [('B', in3, (None,)), ('C', spaced(in3), (None,))],
-           domain='`start = e` with e of <= 3 nodes calling r / R whose body has <= 2 nodes (full leaves) x '
-                  'configurations B (all inputs <= 3), C (inputs containing a blank)',
-           bound='<= 3 + 2 nodes, input length <= 3', exhaustive=True)
+                  "x configurations B (all inputs over {a,b,' '} <= 4), A (inputs <= 3 where two letters touch), C "
+                  '(inputs <= 3 containing a blank)',
+           bound='<= 4 nodes, input length <= 4', exhaustive=True, budget=Budget(budget.left() * 0.55), chunk=JOBS * 16)
+        go('two-rule', two_rule(3, 2, 'full', 'core'), [('B', in3, (None,))],
+           domain='`start = e` with e of <= 3 nodes (full leaves) calling r / R whose body has <= 2 nodes (core '
+                  "leaves) x configuration B x all inputs over {a,b,' '} <= 3",
+           bound='<= 3 + 2 nodes, input length <= 3', exhaustive=True, budget=Budget(budget.left() * 0.6),
+           chunk=JOBS * 16)
+        go('two-rule-curated-callee', two_rule(3, 0, 'full', exact=True, callees=CALLEES),
+           [('B', IN_MID, (None,)), ('C', spaced(in3), (None,))],
+           domain='`start = e` with e of exactly 3 nodes (full leaves) calling r / R whose body is one of the 11 '
+                  'CALLEES x configurations B (IN_MID), C (inputs <= 3 containing a blank)',
+           bound='3 nodes + curated callee', exhaustive=True, budget=Budget(budget.left() * 0.5), chunk=JOBS * 8)
         go('token-rule-start', single_rule(3, name='R'), [('B', in4, (None,)), ('A', adjacent(in4), (None,))],
            domain='every grammar `R = e` (upper-case start rule) with e of <= 3 nodes (full leaves) x '
                   'configurations B, A x all inputs <= 4',
-           bound='<= 3 nodes, input length <= 4', exhaustive=True)
+           bound='<= 3 nodes, input length <= 4', exhaustive=True, budget=Budget(budget.left() * 0.5), chunk=JOBS * 4)
 
     # curated extras (both tiers)
     cur = curated()
@@ -613,7 +659,7 @@ def run(tier='quick', seed=0, info=None):
                        'nameguard/namechars, keywords and @name, comments, custom whitespace, skip-to) x all inputs '
                        'over their own alphabets up to length 3..5',
                 bound='input length <= 5', cases=stats['cases'], distinct_nontrivial=stats['nontrivial'], rule=RULE,
-                exhaustive=True, samples=samples, failures=failures)
+                exhaustive=True, samples=samples, failures=best_witnesses(failures, 1))
     for it in its:
         it.extra.update(grammars=stats['grammars'], failures_by_class=dict(stats['by_class']),
                         skipped_unspecified=stats['skipped_unspecified'])
@@ -632,11 +678,11 @@ def run(tier='quick', seed=0, info=None):
         # random extension beyond the exhaustive bound, seeded; in rounds until the budget is used
         rnd = 0
         ins = None
-        while budget.left() > 120 and rnd < 40:
-            descs = random_grammars((seed or 0) * 1000 + rnd, 1500)
+        while budget.left() > 150 and rnd < 40:
+            descs = random_grammars((seed or 0) * 1000 + rnd, 1200)
             rng = random.Random((seed or 0) * 7919 + rnd)
             ins = sorted(set(rng.sample(in5, 60) + in3))
-            go(f'random-{rnd}', descs, [('B', ins, (None,)), ('A', adjacent(ins), (None,))],
+            go(f'random-{rnd}', descs, [('B', ins, (None,)), ('A', adjacent(ins), (None,))], chunk=JOBS * 4,
                domain=f'random grammars (seed {seed}, round {rnd}): 1-3 rules, start body 5-7 nodes, other bodies '
                       '1-4 nodes, core leaves, calls only to later rules x configurations B, A x all inputs of '
                       "length <= 3 plus 60 random inputs of length <= 5 over {a,b,' '}",
